@@ -406,6 +406,11 @@ func Run(sc Scenario, seed int64) *Result {
 	}
 	r.s = sess.New(func(c *client.Config) {
 		c.Flood = !sc.Flood
+		if sc.ConnectUp {
+			// what was negotiated on the live connection must survive a refused Connect as well
+			c.EnableCapabilityNegotiation = true
+			c.Capabilites = []string{"multi-prefix"}
+		}
 		if sc.Ping {
 			c.PingFreq = 20 * time.Millisecond
 		}
@@ -623,6 +628,11 @@ func (r *runner) oneGeneration(rng *rand.Rand) bool {
 		s.Sync(r.deadline)
 	}
 	if sc.ConnectUp {
+		srv.SendLines(":irc.example.net CAP * LS :multi-prefix away-notify")
+		s.Sync(r.deadline)
+		srv.SendLines(":irc.example.net CAP me ACK :multi-prefix")
+		s.Sync(r.deadline)
+		hadCap := s.C.HasCapability("multi-prefix") && s.C.SupportsCapability("away-notify")
 		// must be refused and must not disturb the connection
 		if err := s.C.Connect(); err == nil {
 			r.problem("C06", "connect-while-connected-accepted", "Connect on a connected client returned nil")
@@ -633,6 +643,9 @@ func (r *runner) oneGeneration(rng *rand.Rand) bool {
 		if !s.Sync(2 * time.Second) {
 			r.problem("C06", "refused-connect-broke-connection", "after a refused Connect the connection no longer answers PING: "+shortStacks(internalGoroutines()))
 			return false
+		}
+		if hadCap && (!s.C.HasCapability("multi-prefix") || !s.C.SupportsCapability("away-notify")) {
+			r.problem("C06", "refused-connect-lost-capabilities", "after a refused Connect HasCapability/SupportsCapability no longer report what was negotiated on the live connection")
 		}
 	}
 	r.held, r.release = make(chan struct{}), make(chan struct{})
